@@ -178,6 +178,23 @@ class StreamReaderWrapper(miniaudio.StreamableSource):
         self.buffer: SemiSeekableBuffer = buffer
         self.loop = asyncio.get_event_loop()
 
+    async def _read_from_source(self, num_bytes: int) -> bytes:
+        """Read num_bytes from the source, less only if the source ends.
+
+        A stream reader returns what has arrived so far. Handing such a short read to
+        the decoder makes it drop the incomplete audio frame at the end of it.
+        """
+        if num_bytes < 0:
+            return await self.reader.read(num_bytes)
+
+        data = b""
+        while len(data) < num_bytes:
+            chunk = await self.reader.read(num_bytes - len(data))
+            if not chunk:
+                break
+            data += chunk
+        return data
+
     def read(self, num_bytes: int = -1) -> Union[bytes, memoryview]:
         """Read and return data from buffer."""
         if num_bytes == 0:
@@ -186,7 +203,7 @@ class StreamReaderWrapper(miniaudio.StreamableSource):
         # Read all data (if -1), otherwise as much as request OR space left in buffer
         if self.buffer.position > 0 and self.buffer.size == 0:
             return asyncio.run_coroutine_threadsafe(
-                self.reader.read(num_bytes), self.loop
+                self._read_from_source(num_bytes), self.loop
             ).result()
 
         to_read = self.buffer.size if num_bytes == -1 else num_bytes
@@ -195,7 +212,7 @@ class StreamReaderWrapper(miniaudio.StreamableSource):
 
         self.buffer.add(
             asyncio.run_coroutine_threadsafe(
-                self.reader.read(from_source), self.loop
+                self._read_from_source(from_source), self.loop
             ).result()
         )
 
